@@ -778,7 +778,7 @@ def _judge_worker2(workdir, k):
         res["classes"][kk] = res["classes"].get(kk, 0) + 1
 
     obs = {}
-    with open(os.path.join(workdir, "c05.obs.%d.tsv" % k)) as f:
+    with open(os.path.join(workdir, "c05.obs.%d.tsv" % k), encoding="latin-1") as f:  # what() may hold raw input bytes
         for line in f:
             p = line.rstrip("\n").split("\t")
             if len(p) < 6:
@@ -787,7 +787,7 @@ def _judge_worker2(workdir, k):
     bases = {}
     base_default_bad = {}
     judged = 0
-    with open(os.path.join(workdir, "c05.cases.%d.tsv" % k)) as f:
+    with open(os.path.join(workdir, "c05.cases.%d.tsv" % k), encoding="latin-1") as f:
         for line in f:
             p = line.rstrip("\n").split("\t")
             kind = p[0]
@@ -1010,7 +1010,7 @@ def fuzz_stage(ctx, st):
         meta = {"stage": "c05-fuzz", "shard": None, "cmd": o["cmd"]}
         op = os.path.join(o["jobdir"], "oracle.tsv")
         if os.path.exists(op):
-            with open(op) as f:
+            with open(op, encoding="latin-1") as f:  # exception messages may quote raw input bytes
                 for line in f:
                     p = line.rstrip("\n").split("\t")
                     if len(p) < 3:
